@@ -176,7 +176,8 @@ class Build:
             if kind in ("redundant", "colour", "omp_pardo"):
                 loops = self.loops()
                 if kind == "omp_pardo":
-                    loops = [lp for lp in loops if lp.loop_type != "colours"]
+                    loops = [lp for lp in loops if lp.loop_type != "colours"
+                             and not lp.ancestor(Directive)]
                 elif kind == "colour":
                     loops = [lp for lp in loops
                              if lp.loop_type not in ("colours", "colour")]
@@ -310,7 +311,8 @@ def evaluate(case, stats=None):
         nloops, nhx = build.counts()
         status, text = build.generate()
         if status != "ok":
-            return ("discard", "generation refused: " + text.split(":")[0])
+            return ("discard", "generation refused: " +
+                    " ".join(text.split()[:14]))
         events = H.parse_psy(text)
         got_loops = sum(len(e["calls"]) for e in events if e["ev"] == "loop")
         got_hx = sum(1 for e in events if e["ev"] == "hx")
@@ -413,8 +415,42 @@ def cls_write_only_annexed(case):
     return False
 
 
+def _accepted(case):
+    return case.get("accepted") or []
+
+
+def cls_max_depth_inc(case):
+    """A redundant-computation step to the *maximum* depth was accepted
+    and check (a) fails for a gh_inc argument in a loop that reaches the
+    full mesh depth (the reader needs max_depth-1, which
+    LFRicHaloExchange.required() treats as 'literal depth 0')."""
+    if case.get("bucket") != "a:gh_inc":
+        return False
+    if not any(s["t"] == "redundant" and not s.get("depth")
+               for s in _accepted(case)):
+        return False
+    return (f"gh_inc in a loop to depth {case.get('mesh_depth')})"
+            in case.get("message_key", ""))
+
+
+def cls_exchange_in_colours(case):
+    """Redundant computation applied to an already coloured loop: the new
+    halo exchange is inserted inside the loop over colours."""
+    if case.get("bucket") != "c:exchange_in_colours_loop":
+        return False
+    seen_colour = False
+    for step in _accepted(case):
+        if step["t"] == "colour":
+            seen_colour = True
+        elif step["t"] == "redundant" and seen_colour:
+            return True
+    return False
+
+
 CLASSIFIERS = {
     "write_only_discontinuous_kernel_reads_annexed": cls_write_only_annexed,
+    "max_depth_inc_reader_treated_as_depth_0": cls_max_depth_inc,
+    "exchange_inside_colours_loop": cls_exchange_in_colours,
 }
 
 
